@@ -82,6 +82,14 @@ def gen_cases(ctx):
         key = rng.choice(["k", "q"])
         table = [("%s-%s" % (nd, key), rng.randrange(0, 3)) for nd in nodes]
         cases.append(("table", nodes, key, table, rng.randrange(0, 2)))
+    # hash functions whose values do not fit 32 bits (a 64-bit hash is a legal hash_function): the score is compared as it is
+    wide = [1, 2 ** 32, 2 ** 32 + 1, 2 ** 33 + 5, 2 ** 63, 2 ** 64 - 1, 2 ** 32 - 1, 5]
+    for _ in range(120 if ctx.quick else 2000):
+        n = rng.randrange(2, 6)
+        nodes = rng.sample(["a", "b", "c", "d", "ab", "ba", "B"], n)
+        key = rng.choice(["k", "q"])
+        table = [("%s-%s" % (nd, key), rng.choice(wide)) for nd in nodes]
+        cases.append(("table", nodes, key, table, 0))
     return cases
 
 
